@@ -52,6 +52,7 @@ def scenarios(tier):
     names = sorted(MENU)
     pairs = QUICK_PAIRS if tier == "quick" else list(itertools.combinations_with_replacement(names, 2))
     for a, b in pairs:
+        a, b = sorted((a, b))  # one orientation in both tiers, so that signatures coincide
         for st in STATES:
             if tier == "quick" and st not in QUICK_STATES:
                 continue
@@ -64,7 +65,7 @@ def scenarios(tier):
                         "threads": {"T1": [MENU[a]], "T2": [MENU[b]]}, "pids": ("p1", "p2")})
     if tier == "thorough":
         for a, b, st in [("s2A", "d1", "p1A"), ("t1A", "d1", "empty"), ("s1A", "s2A", "empty"), ("s1A", "s1B", "empty")]:
-            out.append({"name": "%s||%s from %s (pristine directories)" % (a, b, st), "init": st, "pristine": True,
+            out.append({"name": "%s||%s from %s (pristine directories)" % (a, b, st), "init": st, "pristine": True, "time_cap": 400,
                         "threads": {"T1": [MENU[a]], "T2": [MENU[b]]}, "pids": ("p1", "p2")})
         # two calls per thread
         out.append({"name": "s1A;d1||s2A from empty", "init": "empty",
